@@ -35,6 +35,8 @@ VARS = [
     "areas",
     "edge_z",
     "edge_dist",
+    "edge_face_dist",
+    "bounds",
 ]
 ATTR = {
     "npf": "n_nodes_per_face",
@@ -49,6 +51,8 @@ ATTR = {
     "areas": "face_areas",
     "edge_z": "edge_node_z",
     "edge_dist": "edge_node_distances",
+    "edge_face_dist": "edge_face_distances",
+    "bounds": "bounds",
 }
 TABLE_KEY = {
     "edge_node": "edges",
@@ -493,6 +497,10 @@ def access(g, v, rec, raised, flags):
             rec["_ez"] = np.asarray(val.values, dtype=float)
         elif v == "edge_dist":
             rec["_ed"] = np.asarray(val.values, dtype=float)
+        elif v == "edge_face_dist":
+            rec["_efd"] = np.asarray(val.values, dtype=float)
+        elif v == "bounds":
+            rec["_bounds"] = np.asarray(val.values, dtype=float)
         return "value"
     except Exception as e:  # noqa: the property promises a value
         raised.append(v)
@@ -517,8 +525,15 @@ def centres_equal(res5, ref5, pick):
     return ok
 
 
+def side_keys(g, npos):
+    """Every edge row of g as the pair of source positions of its end nodes."""
+    rows, _, _ = hux.table(g.edge_node_connectivity)
+    return [tuple(sorted((npos[a], npos[b]))) if 0 <= a < len(npos) and 0 <= b < len(npos) else None for a, b in rows]
+
+
 def project_grid(g2, ctxt, order, first=()):
-    """ctxt: src_xyz, fresh (reference source grid), srcE, edge_id (side -> source edge id)."""
+    """ctxt: src_xyz, fresh (reference source grid), srcE, edge_id (side -> source edge id),
+    ref (the same selection made on a pristine source: what a result must report whatever the history was)."""
     res = {}
     raised = []
     flags = {}
@@ -586,6 +601,39 @@ def project_grid(g2, ctxt, order, first=()):
                     ok = False
                     break
         flags["eq_edge_z"] = bool(ok)
+    # neighbourhood-dependent and per-face quantities: equal to what the subset of a PRISTINE source derives
+    ref = ctxt.get("ref")
+    if "_efd" in res:
+        efd = res.pop("_efd")
+        res["efd_zero"] = [bool(x == 0.0) for x in efd]
+        ok = ref is not None and "edges" in res and len(efd) == len(res["edges"])
+        if ok:
+            try:
+                rpos = match_positions(unit_xyz(ref.node_lon.values, ref.node_lat.values), ctxt["src_xyz"])
+                want = dict(zip(side_keys(ref, rpos), np.asarray(ref.edge_face_distances.values, dtype=float)))
+                for key, x in zip(side_keys(g2, npos), efd):
+                    if key is None or key not in want or abs(want[key] - x) > TOL:
+                        ok = False
+                        break
+            except Exception:  # noqa: the reference itself cannot derive it: another property's business
+                ok = None
+        if ok is not None:
+            flags["eq_edge_face_dist"] = bool(ok)
+        # descriptive: is it the source's own array, restricted?
+        parent = ctxt.get("parent_efd")
+        res["efd_carried"] = bool(
+            parent is not None and epick is not None and len(epick) == len(efd) and all(p >= 0 for p in epick)
+            and np.array_equal(efd, parent[np.asarray(epick, dtype=int)])
+        )
+    if "_bounds" in res:
+        b = res.pop("_bounds")
+        try:
+            rb = np.asarray(ref.bounds.values, dtype=float) if ref is not None else None
+        except Exception:  # noqa
+            rb = None
+        if rb is not None:
+            rsrc = [int(x) for x in np.asarray(ref._ds["subgrid_face_indices"].values).ravel()]
+            flags["eq_bounds"] = bool(rsrc == src and close(b, rb))
     res["raised"] = raised
     res["flags"] = flags
     errors = res.pop("_errors", {})
@@ -755,6 +803,21 @@ def record_case(case):
     stores.append(store_of(grid))
     stores.append(store_of(g2))
     order = VARS[case.get("rot", 0) % len(VARS):] + VARS[: case.get("rot", 0) % len(VARS)]
+    if not case.get("bounds"):
+        order = [v for v in order if v != "bounds"]  # its JIT costs ~11 s per process: only where asked for
+    # the same selection on a pristine source: what the result must report whatever was materialised before
+    try:
+        pristine = build_grid(geo, case["prov"], seed)
+        if call[0] == "isel":
+            ctxt["ref"] = pristine.isel(**call[1])
+        elif call[0] == "constant_latitude":
+            ctxt["ref"] = pristine.cross_section.constant_latitude(**call[1])
+        else:
+            ctxt["ref"] = getattr(pristine.subset, call[0])(**call[1])
+    except Exception:  # noqa
+        ctxt["ref"] = None
+    if "edge_face_dist" in pre:
+        ctxt["parent_efd"] = np.asarray(grid.edge_face_distances.values, dtype=float)
     try:
         res, outcomes, st2, errors = project_grid(g2, ctxt, order, first=case.get("acc", ()))
     except Exception as e:  # noqa
